@@ -44,10 +44,10 @@ func replicate(ctx context.Context, opts *ReplicateOptions) (interface{}, error)
 	if doc, ok := obj.(*schema.Object); ok {
 		// Documents are updated in place
 		if err := doc.Replicate(); err != nil {
-			return nil, err
+			return nil, keyedError(err)
 		}
 		if err = doc.Validate(); err != nil {
-			return nil, err
+			return nil, keyedError(err)
 		}
 		return doc, nil
 	}
